@@ -2,7 +2,8 @@
 //!
 //! A case is one (problem, solution) pair in the simplified integer form of `pragen` plus a list of
 //! single-breach mutants (each a small patch of the solution or of the problem, with its class and
-//! site). `exec` renders every pair to the pragmatic JSON documents, runs the repository's
+//! site; patch fields: `tours`, `set`, `sol` for the solution, `veh`, `rel`, `res` for the problem). Three
+//! streams of problems: rotating features, clean structural splits, shared reload resources. `exec` renders every pair to the pragmatic JSON documents, runs the repository's
 //! `CheckerContext::check` and reports, per pair, the sorted set of *error codes* (message classes).
 
 use serde_json::{Map, Value, json};
